@@ -188,3 +188,169 @@ Proof. split; [|reflexivity]. repeat split; try (vm_compute; reflexivity). vm_co
 Lemma roundtrip_unfixed_refuted :
   exists s e, parse accept_all s = POk e /\ parse accept_all (print_unfixed e) <> POk e.
 Proof. exists w_quotes_src, w_quotes. destruct refuted_quotes as [[H1 [_ [_ [H2 _]]]] _]. split; assumption. Qed.
+
+(* ---------------------------------------------------------------- evaluation = the documented set
+   [spec_member] (Model/Filterset.v) is written from the reference documentation over the
+   reflexive-transitive closure of a direct-dependency relation, with its own reading of the
+   equality and contains matchers; the implementation model's [matcher_match] and the
+   [w_depends_on] oracle do not occur in it. *)
+From Coq Require Import Relations.Relation_Operators.
+From NextestModel Require Import Proofs.StrFacts.
+
+Lemma matcher_match_doc E m s : matcher_match E m s = true <-> doc_name_match E m s.
+Proof.
+  destruct m as [x i|x i|g i|r]; cbn [matcher_match doc_name_match]; try tauto.
+  - rewrite str_eqb_eq. split; congruence.
+  - apply is_infix_spec.
+Qed.
+
+Lemma in_fst_exists (l : list (N * str)) x :
+  In x (map fst l) <-> exists name, In (x, name) l.
+Proof.
+  rewrite in_map_iff. split.
+  - intros [[a name] [<- H]]. exists name. exact H.
+  - intros [name H]. exists (x, name). auto.
+Qed.
+
+Lemma in_set_doc direct E W dt d q :
+  graph_ok direct W -> query_ok W q -> (in_set E W dt d q <-> doc_set direct E W dt d q).
+Proof.
+  intros Hg Hq. unfold query_ok in Hq.
+  destruct d; cbn [in_set doc_set]; try (apply matcher_match_doc); try tauto.
+  - (* package *)
+    split.
+    + intros [[a name] (Hin & Hm & Ha)]. cbn [fst snd] in *. subst a.
+      exists name. split; [exact Hin|apply matcher_match_doc; exact Hm].
+    + intros (name & Hin & Hm). exists (q_pkg (fst q), name).
+      split; [exact Hin|]. split; [apply matcher_match_doc; exact Hm|reflexivity].
+  - (* deps: depends_on matching-crate test's-crate *)
+    split.
+    + intros ([x name] & [y yn] & H1 & H2 & Hm & Hd & Hy). cbn [fst snd] in *. subst y.
+      exists x, name. split; [exact H1|]. split; [apply matcher_match_doc; exact Hm|].
+      apply (Hg x (q_pkg (fst q))); [apply in_fst_exists; eauto|exact Hq|exact Hd].
+    + intros (x & name & H1 & Hm & Hc).
+      destruct (proj1 (in_fst_exists _ _) Hq) as [qn Hqn].
+      exists (x, name), (q_pkg (fst q), qn). cbn [fst snd].
+      split; [exact H1|]. split; [exact Hqn|]. split; [apply matcher_match_doc; exact Hm|].
+      split; [|reflexivity].
+      apply (Hg x (q_pkg (fst q))); [apply in_fst_exists; eauto|exact Hq|exact Hc].
+  - (* rdeps: depends_on test's-crate matching-crate *)
+    split.
+    + intros ([x name] & [y yn] & H1 & H2 & Hm & Hd & Hy). cbn [fst snd] in *. subst y.
+      exists x, name. split; [exact H1|]. split; [apply matcher_match_doc; exact Hm|].
+      apply (Hg (q_pkg (fst q)) x); [exact Hq|apply in_fst_exists; eauto|exact Hd].
+    + intros (x & name & H1 & Hm & Hc).
+      destruct (proj1 (in_fst_exists _ _) Hq) as [qn Hqn].
+      exists (x, name), (q_pkg (fst q), qn). cbn [fst snd].
+      split; [exact H1|]. split; [exact Hqn|]. split; [apply matcher_match_doc; exact Hm|].
+      split; [|reflexivity].
+      apply (Hg (q_pkg (fst q)) x); [exact Hq|apply in_fst_exists; eauto|exact Hc].
+Qed.
+
+Lemma denote_spec direct E W dt e q :
+  graph_ok direct W -> query_ok W q -> (denote E W dt e q <-> spec_member direct E W dt e q).
+Proof.
+  intros Hg Hq. induction e as [op a IH|op a IHa b IHb|op a IHa b IHb|op a IHa b IHb|a IH|d];
+    cbn [denote spec_member]; try tauto.
+  apply in_set_doc; assumption.
+Qed.
+
+Theorem eval_is_documented_set direct E W dt e q :
+  graph_ok direct W -> query_ok W q ->
+  (eval_test E dt (compile E W e) q = true <-> spec_member direct E W dt e q).
+Proof.
+  intros Hg Hq. rewrite eval_is_membership. apply denote_spec; assumption.
+Qed.
+
+(* ---------------------------------------------------------------- the chain a -> b -> c
+   package 0 "a" depends on 1 "b", which depends on 2 "c" *)
+Definition chain_direct (x y : N) : Prop := y = x + 1 /\ y <= 2.
+Definition chain_pkgs : list (N * str) := [(0, [97]); (1, [98]); (2, [99])].
+(* what guppy answers on this graph: depends_on x y iff x = y or x comes earlier in the chain *)
+Definition chain_world : world := mkworld chain_pkgs (fun x y => x <=? y) [] [].
+(* the same table with its arguments swapped *)
+Definition chain_world_swapped : world := mkworld chain_pkgs (fun x y => y <=? x) [] [].
+
+Lemma chain_closure x y :
+  clos_refl_trans N chain_direct x y <-> x = y \/ (x < y /\ y <= 2).
+Proof.
+  split.
+  - induction 1 as [x y [H1 H2]|x|x y z _ IH1 _ IH2]; lia.
+  - intros [->|[Hlt Hle]]; [apply rt_refl|].
+    assert (Hs : forall a b, chain_direct a b -> clos_refl_trans N chain_direct a b)
+      by (intros; apply rt_step; assumption).
+    assert (Hxy : (x = 0 /\ y = 1) \/ (x = 0 /\ y = 2) \/ (x = 1 /\ y = 2)) by lia.
+    destruct Hxy as [[-> ->]|[[-> ->]|[-> ->]]].
+    + apply Hs. unfold chain_direct. lia.
+    + apply rt_trans with 1; apply Hs; unfold chain_direct; lia.
+    + apply Hs. unfold chain_direct. lia.
+Qed.
+
+Lemma chain_graph_ok : graph_ok chain_direct chain_world.
+Proof.
+  intros a b Ha Hb. cbn [chain_world w_depends_on]. rewrite chain_closure, N.leb_le.
+  cbn in Ha, Hb. lia.
+Qed.
+
+(* the swapped table is not a model of this graph: the hypothesis rejects it *)
+Lemma chain_swapped_not_ok : ~ graph_ok chain_direct chain_world_swapped.
+Proof.
+  intros H. specialize (H 0 1). cbn in H.
+  assert (H01 : clos_refl_trans N chain_direct 0 1) by (apply chain_closure; lia).
+  apply H in H01; [discriminate|tauto|tauto].
+Qed.
+
+Definition chain_q (p : N) : tquery := (mkbq p [] [] [] PTarget, []).
+Definition deps_b : pexpr := PSet (SDeps (MEqual [98] false)).      (* deps(=b) *)
+Definition rdeps_b : pexpr := PSet (SRdeps (MEqual [98] false)).    (* rdeps(=b) *)
+
+(* in the SPECIFICATION: deps(=b) = tests of {b, c}; rdeps(=b) = tests of {a, b} *)
+Lemma chain_spec_deps E dt p :
+  spec_member chain_direct E chain_world dt deps_b (chain_q p) <-> p = 1 \/ p = 2.
+Proof.
+  cbn [spec_member deps_b doc_set doc_name_match chain_q fst q_pkg chain_world w_pkgs]. split.
+  - intros (x & name & Hin & -> & Hc). apply chain_closure in Hc.
+    cbn in Hin. destruct Hin as [H|[H|[H|[]]]]; inversion H; subst; lia.
+  - intros Hp. exists 1, [98]. split; [cbn; tauto|]. split; [reflexivity|].
+    apply chain_closure. lia.
+Qed.
+
+Lemma chain_spec_rdeps E dt p :
+  spec_member chain_direct E chain_world dt rdeps_b (chain_q p) <-> p = 0 \/ p = 1.
+Proof.
+  cbn [spec_member rdeps_b doc_set doc_name_match chain_q fst q_pkg chain_world w_pkgs]. split.
+  - intros (x & name & Hin & -> & Hc). apply chain_closure in Hc.
+    cbn in Hin. destruct Hin as [H|[H|[H|[]]]]; inversion H; subst; lia.
+  - intros Hp. exists 1, [98]. split; [cbn; tauto|]. split; [reflexivity|].
+    apply chain_closure. lia.
+Qed.
+
+(* ---------------------------------------------------------------- a regex oracle that errs (C20)
+   [rx_sane] is the only hypothesis of C20_spans_within.  An instance that never reports an error
+   satisfies it vacuously; this one rejects every pattern containing an opening parenthesis and
+   reports the byte span of the first one (as regex_syntax does for an unclosed group). *)
+Fixpoint first_open (p : str) (off : N) : option N :=
+  match p with
+  | [] => None
+  | c :: r => if c =? 40 then Some off else first_open r (off + utf8_len c)
+  end.
+
+Definition paren_engine : syntax_oracle :=
+  mksyn (fun _ => true)
+        (fun p => match first_open p 0 with Some off => RxErr off 1 | None => RxOk end).
+
+Lemma first_open_within p : forall off0 off,
+  first_open p off0 = Some off -> off + 1 <= off0 + blen p.
+Proof.
+  induction p as [|c r IH]; intros off0 off; cbn [first_open blen]; [discriminate|].
+  destruct (c =? 40) eqn:E.
+  - intros H; injection H as <-. apply N.eqb_eq in E. subst c. change (utf8_len 40) with 1. lia.
+  - intros H. apply IH in H. unfold utf8_len in *. destruct (c <? 128), (c <? 2048), (c <? 65536); lia.
+Qed.
+
+Lemma paren_engine_sane : rx_sane paren_engine.
+Proof.
+  intros p off len. cbn [paren_engine regex_check].
+  destruct (first_open p 0) as [o|] eqn:E; [|discriminate].
+  intros H; injection H as <- <-. apply first_open_within in E. lia.
+Qed.
